@@ -811,9 +811,12 @@ pub mod system_time_conversion {
                 i64::try_from(micros).ok()
             }
             Err(e) => {
-                // Safely convert to i64 microseconds (negative), or return None.
+                // Safely convert to i64 microseconds (negative), or return None.  Negate in the
+                // wider type so that i64::MIN, whose magnitude does not fit i64, converts too.
                 let micros: u128 = e.duration().as_micros();
-                i64::try_from(micros).ok().and_then(i64::checked_neg)
+                i128::try_from(micros)
+                    .ok()
+                    .and_then(|micros| i64::try_from(-micros).ok())
             }
         }
     }
